@@ -13,3 +13,11 @@ package radius
 
 //@ func parseAttributes
 //@   modifies nothing
+
+// ---- client.go: RADIUS authentication as seen by its callers (C04) ----
+// The exchange with the server is external: the verdict is an oracle.
+
+//@ func (c *Client) Authenticate
+//@   trusted network exchange with the RADIUS server; callers only see the verdict
+//@   modifies nothing
+//@   sets authAccepted = err == nil && result != nil && result.Accepted
